@@ -292,7 +292,7 @@ def float_decls(ctx):
         out.append((core_case, Decl('float', t, True)))
     extra = [Decl('float', {'min': 0}, False), Decl('float', {'max': 0.0}, False), Decl('float', {'min': 0}, True, check='nonneg'),
              Decl('float', {'min': '0.5'}, True), Decl('float', {'min': 0, 'max': 10}, False, {'default': 3}),
-             Decl('float', {'min': 0}, True, {'default': -1.0}), Decl('float', {'min': math.nan}, True)]
+             Decl('float', {'min': 0}, True, {'default': -1.0})]
     return out, extra
 
 def float_candidates(d):
